@@ -349,3 +349,63 @@ def rule_checked_constructors(ctx, cfg='prod-all'):
             if cal0.endswith(('::is_torsion_free', '::is_on_curve', '::clear_cofactor')):
                 subst.append('%s L%s: %s' % (p, t['line'], cal0))
     yield Ob('RF-D', 'crate#manual-subgroup-checks', not subst, 'no hand-rolled curve / subgroup test replaces the checked constructors', '', fact=subst[:6], expected='none')
+
+
+# ------------------------------------------------------------------ result binding (every success value is computed from the inputs it must bind)
+import bbs_tables as _T
+RESULT_BINDING = {
+    _T.SIG + 'update_signature': ['self', 'sk', 'old_message', 'new_message', 'update_index'],
+    _T.SIG + 'sign': ['sk', 'pk', 'messages', 'header'],
+    _T.BSIG + 'blind_sign': ['sk', 'pk', 'commitment_with_proof', 'header', 'messages'],
+    _T.POK + 'proof_gen': ['pk', 'signature', 'header', 'ph', 'messages', 'disclosed_indexes'],
+    _T.POK + 'blind_proof_gen': ['pk', 'signature', 'header', 'ph', 'messages', 'committed_messages', 'disclosed_indexes',
+                                 'disclosed_commitment_indexes', 'secret_prover_blind'],
+    _T.COM + 'commit': ['committed_messages'],
+}
+# "value unchanged" shortcuts are accepted only under an exact library equality of the two inputs
+_EXACT_EQ = ('core::slice::cmp::', 'std::cmp::PartialEq::eq', 'core::cmp::PartialEq::eq', 'std::vec::', 'alloc::vec::', 'core::array::equality::')
+
+
+def rule_result_binding(ctx, table=None, cfg='prod-all', only=None):
+    """every success value of an issuing / updating / proving operation is data dependent on each input it must be bound to - on every return
+    site separately: a shortcut that hands back an earlier value (the old signature, a cached proof) without recomputing it from the new input
+    breaks the statement the caller relies on.  An early return under an exact library equality of old and new value is the only accepted
+    exception."""
+    from flow import accept_blocks, GateAnalysis
+    from dep import strip
+    prog, eng = ctx.prog(cfg), ctx.eng(cfg)
+    ga = GateAnalysis(eng)
+    for suffix, reqs in sorted((table or RESULT_BINDING).items()):
+        if only and not any(suffix.endswith(o) for o in only):
+            continue
+        body = resolve_fn(prog, suffix)
+        fd = eng.fndep(body.path)
+        sites = []
+        for bi, blk in enumerate(body.blocks):
+            if blk['cleanup']:
+                continue
+            for s in blk['stmts']:
+                if s['k'] == 'assign' and s['dst']['l'] == 0 and not s['dst'].get('p') and s['rv']['k'] == 'agg' and s['rv'].get('variant') == 'Ok':
+                    sites.append((bi, s, fd.read_op(s['rv']['ops'][0]) if s['rv']['ops'] else set()))
+            t = blk['term']
+            if t['k'] == 'call' and t['dst']['l'] == 0 and not t['dst'].get('p') and 'from_residual' not in (t.get('callee') or '') and 'panic' not in (t.get('callee') or ''):
+                at = set()
+                for a in t['args']:
+                    at |= fd.read_op(a)
+                sites.append((bi, t, at))
+        if not sites:
+            raise AnchorMissing('no success return found in %s' % body.path)
+        for n, (bi, s, atoms) in enumerate(sites):
+            srcs = {body.local_name(strip(x)[1]) for x in atoms if strip(x)[0] == 'p'}
+            exact_eq = False
+            for g in ga.block_gates(fd, bi):
+                if g.kind == 'call' and g.dom and g.truth is True and (g.callee or '').startswith(_EXACT_EQ) and (g.callee or '').endswith('::eq'):
+                    gs = {body.local_name(strip(x)[1]) for x in g.all_atoms() if strip(x)[0] == 'p'}
+                    if {'old_message', 'new_message'} <= gs:
+                        exact_eq = True
+            for r in reqs:
+                if body.param_index(r) is None:
+                    raise AnchorMissing('%s has no parameter %s' % (body.path, r))
+                ok = r in srcs or (exact_eq and r != 'self')
+                yield Ob('RF-D', '%s#result[%d]∋%s' % (body.path, n, r), ok, 'success value returned here is computed from `%s`' % r,
+                         '%s L%s' % (body.file(), s.get('line')), fact={'sources': sorted(x for x in srcs if x), 'under_exact_equality': exact_eq}, expected=r)
